@@ -93,6 +93,7 @@ func cRun(t *testing.T, r *fw.Run, key string, sc *cScript, prop string) {
 			sc.Route = "nilhttp"
 		default:
 			sc.Route = "own"
+			sc.Poison = h%8 == 2 || h%8 == 3
 		}
 	}
 	desc, _ := json.Marshal(sc)
